@@ -28,7 +28,7 @@ type msnEntry struct {
 
 // oracleC04 checks how successive playlists of each stream evolve.
 func (o *muxObs) oracleC04(r *Run) {
-	o.reportProblems(r, "grammar", "blocked")
+	o.reportProblems(r, "grammar", "blocked", "delta")
 	if r.Failed() {
 		return
 	}
